@@ -132,18 +132,19 @@ Lemma quiet_rule13 : forall st nt sched, wf_init st -> quiescent step thrs stim 
 Proof. intros st nt sched H Q. rewrite ocfg_dcfg. apply rule13_accepts_model_init_l; assumption. Qed.
 
 (* the situation in which the harness writes the end marker: it has closed whatever can be
-   closed.  [all_subscribed]: no Subscribe call is still in flight - this excludes exactly the
+   closed (a Subscribe call that returned an error handed out nothing to close).  [all_subscribed]: no Subscribe call is still in flight - this excludes exactly the
    known finding (crossing multi-type Subscribes stalled on each other), see
    c15_no_deadlock_full_refuted. *)
 Definition all_closing (tr : list label) (n : nat) : Prop :=
-  forall s, (s < n)%nat -> o_returned tr (TSub s) = true -> o_started tr (TClose s) = true.
+  forall s, (s < n)%nat -> o_returned tr (TSub s) = true -> o_rejected tr s = false -> o_started tr (TClose s) = true.
 Definition all_subscribed (tr : list label) (n : nat) : Prop :=
   forall s, (s < n)%nat -> o_started tr (TSub s) = true -> o_returned tr (TSub s) = true.
 
 Lemma no_root : forall tr n s, all_closing tr n -> all_subscribed tr n -> (s < n)%nat -> o_root tr s = false.
 Proof.
-  intros tr n s A B Hs. unfold o_root. destruct (o_returned tr (TSub s)) eqn:R.
-  - rewrite (A s Hs R). rewrite orb_true_r. reflexivity.
+  intros tr n s A B Hs. unfold o_root. destruct (o_rejected tr s) eqn:J; [rewrite andb_false_r; reflexivity|].
+  destruct (o_returned tr (TSub s)) eqn:R.
+  - rewrite (A s Hs R J). rewrite orb_true_r. reflexivity.
   - destruct (o_started tr (TSub s)) eqn:S; [rewrite (B s Hs S) in R; discriminate|]. reflexivity.
 Qed.
 
@@ -198,7 +199,7 @@ Qed.
 
 Lemma init_of_shape : forall c, init_of c =
   init_state (Z.to_nat (c_ntypes c))
-    (map (fun p => new_sub (fst p) (snd p)) (map (fun s => let '(w, cap, tys) := s in ((if Z.eqb w 1 then None else Some (map Z.to_nat tys)), Z.to_nat cap)) (c_subs c)))
+    (map (fun p => new_sub (fst p) (snd p)) (map (fun s => let '(w, cap, tys) := s in ((if Z.eqb w 1 then None else Some (map Z.to_nat (vtys w tys))), Z.to_nat cap)) (c_subs c)))
     (map (fun p => new_emitter (fst p) (snd p)) (map (fun p => (Z.to_nat (fst p), zbool (snd p))) (c_emitters c)))
     (map (fun p => new_emit (fst p) (snd p)) (map (fun p => (Z.to_nat (fst p), snd p)) (c_emits c))).
 Proof.
@@ -211,6 +212,7 @@ Proof.
   apply in_map_iff in Hp. destruct Hp as [[[w cap] tys] [<- Hs]]. cbn [fst].
   destruct (Z.eqb w 1); [exact I|]. unfold cfg_wf in W. repeat (apply andb_true_iff in W; destruct W as [W ?]).
   rewrite forallb_forall in H1. specialize (H1 _ Hs). cbn in H1. repeat (apply andb_true_iff in H1; destruct H1 as [H1 ?]).
+  unfold vtys. destruct (Z.leb 2 w); [constructor|].
   apply NoDup_to_nat; [|apply znodup_NoDup; assumption].
   intros x Hx. rewrite forallb_forall in H4. specialize (H4 x Hx). unfold in_range in H4. apply andb_true_iff in H4. destruct H4 as [H4 _]. apply Z.leb_le, H4.
 Qed.
